@@ -73,6 +73,20 @@ fn args_json<'tcx>(args: ty::GenericArgsRef<'tcx>) -> J {
         args.iter()
             .filter_map(|a| {
                 if let Some(t) = a.as_type() {
+                    // a local closure type is named by its definition key (its printed form carries a source position,
+                    // which is the same for every instantiation of a macro)
+                    let mut inner = t;
+                    let mut prefix = String::new();
+                    while let ty::Ref(_, i, m) = inner.kind() {
+                        prefix.push_str(if m.is_mut() { "&mut " } else { "&" });
+                        inner = *i;
+                    }
+                    if let ty::Closure(did, _) = inner.kind() {
+                        if did.is_local() {
+                            let k = ty::tls::with(|tcx| defkey(tcx, *did)).replace('{', "(").replace('}', ")");
+                            return Some(J::s(format!("{}{{closure@KEY:{}}}", prefix, k)));
+                        }
+                    }
                     Some(J::s(tystr(t)))
                 } else if let Some(c) = a.as_const() {
                     Some(J::s(with_no_trimmed_paths!(format!("{}", c))))
@@ -214,10 +228,47 @@ impl<'tcx> Cx<'tcx> {
                 o.put("k", J::s("bytes"));
                 if let Some(bytes) = self.read_alloc(alloc_id, offset.bytes(), ty) {
                     o.put("hex", J::s(bytes));
+                } else if let Some((pty, hex)) = self.read_slice_ref(alloc_id, offset.bytes(), ty) {
+                    // `&'static [T]` / `&'static [T; N]` constant: follow the pointer to the (pointer-free) elements
+                    o.put("k", J::s("ptr"));
+                    o.put("pointee_ty", J::s(pty));
+                    o.put("hex", J::s(hex));
                 }
             }
         }
         o
+    }
+
+    /// a constant of type `&[T]` stored as (pointer, length): the pointee as `[T; len]` bytes
+    fn read_slice_ref(&self, alloc_id: mir::interpret::AllocId, offset: u64, ty: Ty<'tcx>) -> Option<(String, String)> {
+        let tcx = self.tcx;
+        let inner_ty = ty.builtin_deref(true)?;
+        let elem = match inner_ty.kind() {
+            ty::Slice(e) => *e,
+            _ => return None,
+        };
+        let alloc = match tcx.global_alloc(alloc_id) {
+            mir::interpret::GlobalAlloc::Memory(m) => m,
+            _ => return None,
+        };
+        let a = alloc.inner();
+        let off = offset as usize;
+        if off + 16 > a.len() {
+            return None;
+        }
+        let prov = a.provenance().ptrs().iter().find(|(o, _)| o.bytes() as usize == off).map(|(_, p)| *p)?;
+        let raw = a.inspect_with_uninit_and_ptr_outside_interpreter(off..off + 16);
+        let mut w = [0u8; 8];
+        w.copy_from_slice(&raw[0..8]);
+        let poff = u64::from_le_bytes(w);
+        w.copy_from_slice(&raw[8..16]);
+        let len = u64::from_le_bytes(w);
+        if len > 4096 {
+            return None;
+        }
+        let arr = Ty::new_array(tcx, elem, len);
+        let hex = self.read_alloc(prov.alloc_id(), poff, arr)?;
+        Some((tystr(arr), hex))
     }
 
     fn read_alloc(&self, alloc_id: mir::interpret::AllocId, offset: u64, ty: Ty<'tcx>) -> Option<String> {
@@ -580,6 +631,50 @@ impl<'tcx> Cx<'tcx> {
         o
     }
 
+    /// pure plumbing of core (Option / Result combinators, `?`, bool::then): the generic MIR is exported so that the
+    /// evaluator can read through it; one copy per definition
+    fn export_plumbing(&mut self, did: DefId, out: &mut BTreeMap<String, J>) {
+        let tcx = self.tcx;
+        if !matches!(tcx.def_kind(did), DefKind::Fn | DefKind::AssocFn) || !tcx.is_mir_available(did) || tcx.intrinsic(did).is_some() {
+            return;
+        }
+        let dp = defpath(tcx, did);
+        let plumbing = dp.starts_with("std::option::Option::<T>::")
+            || dp.starts_with("core::option::Option::<T>::")
+            || dp.starts_with("std::result::Result::<T, E>::")
+            || dp.starts_with("core::result::Result::<T, E>::")
+            || dp.starts_with("std::bool::<impl bool>::then")
+            || dp.starts_with("core::bool::<impl bool>::then")
+            || (dp.contains("ops::Try>::branch") || dp.contains("ops::FromResidual") && dp.ends_with("::from_residual"))
+                && (dp.contains("option::Option<") || dp.contains("result::Result<"));
+        if !plumbing {
+            return;
+        }
+        let dkey = format!("def:{}", dp);
+        if out.contains_key(&dkey) {
+            return;
+        }
+        let r = std::panic::catch_unwind(std::panic::AssertUnwindSafe(|| {
+            let b = tcx.optimized_mir(did);
+            let gens = tcx.generics_of(did);
+            let mut gn = Vec::new();
+            for i in 0..gens.count() {
+                let p = gens.param_at(i, tcx);
+                if !matches!(p.kind, ty::GenericParamDefKind::Lifetime) {
+                    gn.push(J::s(p.name.to_string()));
+                }
+            }
+            let mut m = J::obj();
+            m.put("def", J::s(dp.clone()));
+            m.put("generics", J::Arr(gn));
+            m.put("mir", self.body(did, b));
+            m
+        }));
+        if let Ok(m) = r {
+            out.insert(dkey, m);
+        }
+    }
+
     /// Panic summary of a foreign instance whose MIR is available: direct panic sites and the
     /// instances it calls (resolved with the instance's substitution).
     fn foreign_summary(&mut self, inst: Instance<'tcx>, depth: usize, seen: &mut HashSet<String>, out: &mut BTreeMap<String, J>) {
@@ -612,6 +707,7 @@ impl<'tcx> Cx<'tcx> {
             out.insert(key, o);
             return;
         }
+        self.export_plumbing(did, out);
         let body = tcx.instance_mir(inst.def);
         let env = TypingEnv::fully_monomorphized();
         let mut sites = Vec::new();
@@ -815,6 +911,7 @@ pub fn collect<'tcx>(tcx: TyCtxt<'tcx>) -> J {
     let insts: Vec<Instance<'tcx>> = cx.foreign.values().cloned().collect();
     for inst in insts {
         // only fully monomorphic instances can be walked
+        cx.export_plumbing(inst.def_id(), &mut out);
         if inst.args.iter().any(|a| a.as_type().map(|t| t.has_param()).unwrap_or(false)) {
             let key = instance_key(tcx, inst.def_id(), inst.args);
             out.insert(
